@@ -8,8 +8,10 @@ import (
 	"os"
 	"os/exec"
 	"path/filepath"
+	"reflect"
 	"runtime/debug"
 	"strings"
+	"sync"
 	"time"
 	"unicode"
 
@@ -105,9 +107,90 @@ func textItem(s, e time.Duration, text string) *astisub.Item {
 	return &astisub.Item{StartAt: s, EndAt: e, Lines: []astisub.Line{{Items: []astisub.LineItem{{Text: text}}}}}
 }
 
+// fullStyle returns inline attributes with every field of the struct set to a non-zero value (by reflection, so that
+// a field added later is filled as well): whatever a transformation is tempted to touch is there to be compared
+func fullStyle(k int) *astisub.StyleAttributes {
+	// sixteen prototypes built once; every call returns a copy of its own
+	fullStyleOnce.Do(func() {
+		for i := range fullStyleProto {
+			fullStyleProto[i] = buildFullStyle(i)
+		}
+	})
+	c := *fullStyleProto[((k%16)+16)%16]
+	return &c
+}
+
+var (
+	fullStyleOnce  sync.Once
+	fullStyleProto [16]*astisub.StyleAttributes
+)
+
+func buildFullStyle(k int) *astisub.StyleAttributes {
+	sa := &astisub.StyleAttributes{}
+	v := reflect.ValueOf(sa).Elem()
+	for i := 0; i < v.NumField(); i++ {
+		f := v.Field(i)
+		if !f.CanSet() {
+			continue
+		}
+		name := v.Type().Field(i).Name
+		switch f.Kind() {
+		case reflect.String:
+			f.SetString(fmt.Sprintf("%s-%d", name, k))
+		case reflect.Bool:
+			f.SetBool(true)
+		case reflect.Int, reflect.Int64, reflect.Uint8:
+			if f.Kind() == reflect.Uint8 {
+				f.SetUint(uint64(k%200 + 1))
+			} else {
+				f.SetInt(int64(k + 1))
+			}
+		case reflect.Ptr:
+			e := reflect.New(f.Type().Elem())
+			switch e.Elem().Kind() {
+			case reflect.String:
+				e.Elem().SetString(fmt.Sprintf("%s-%d", name, k))
+			case reflect.Bool:
+				e.Elem().SetBool(true)
+			case reflect.Int, reflect.Int64:
+				e.Elem().SetInt(int64(k + 1))
+			case reflect.Float64:
+				e.Elem().SetFloat(float64(k) + 0.5)
+			case reflect.Struct:
+				for j := 0; j < e.Elem().NumField(); j++ {
+					if g := e.Elem().Field(j); g.CanSet() {
+						switch g.Kind() {
+						case reflect.Uint8:
+							g.SetUint(uint64(17*j + k%50 + 1))
+						case reflect.Int:
+							g.SetInt(int64(j + k + 1))
+						}
+					}
+				}
+			}
+			f.Set(e)
+		case reflect.Slice:
+			if f.Type().Elem().Kind() == reflect.Struct {
+				f.Set(reflect.MakeSlice(f.Type(), 1, 1))
+				if n := f.Index(0).FieldByName("Name"); n.IsValid() && n.CanSet() && n.Kind() == reflect.String {
+					n.SetString("c")
+				}
+			}
+		}
+	}
+	return sa
+}
+
 // decorate gives every third cue an inline (karaoke) timestamp on its first run, and every third a voice name and a
 // comment: content that a timing transformation has no business with
 func decorate(it *astisub.Item, k int) *astisub.Item {
+	it.Index = k%4 + 1 // numbers repeat, as in a list merged from two numbered files
+	if k%4 == 2 {
+		it.InlineStyle = fullStyle(k)
+		if len(it.Lines) > 0 && len(it.Lines[0].Items) > 0 {
+			it.Lines[0].Items[0].InlineStyle = fullStyle(k + 1)
+		}
+	}
 	switch k % 3 {
 	case 1:
 		if len(it.Lines) > 0 && len(it.Lines[0].Items) > 0 {
